@@ -608,5 +608,45 @@ def r09_13(ctx):
         raise AnalysisError(f"only {n} text interpolations found in the evaluators' log calls")
 
 
+def r09_14(ctx):
+    """R09.14 the menu structure the loop check walks is the one the conditions describe: (a) _auto_menu_dep() decides on the *prompt*
+    condition of a node that has a prompt (and on node.dep otherwise) - with node.dep alone a symbol tied to its predecessor only by
+    `bool \"x\" if PREV` stays a direct child of an enclosing choice, becomes a member and closes a bogus loop on an acyclic tree;
+    (b) every recursive _finalize_node() call hands on the enclosing `visible if` it was given - a constant there drops that condition
+    from the prompts below, the `V -> T` edge is never built and a loop through `visible if V` is accepted."""
+    repo = ctx.repo
+    a = repo.func(f"{CORE}:_auto_menu_dep")
+    ctx.analysed(a.qual)
+    prm = [x.arg for x in a.node.args.args]
+    calls = [n for n in ast.walk(a.node) if isinstance(n, ast.Call) and ast.unparse(n.func) == "_expr_depends_on" and n.args]
+    if not calls or len(prm) < 2:
+        raise AnchorError("_auto_menu_dep: no _expr_depends_on(..) call")
+    from .common import expand_locals
+    fl = Flow(a.node, resolver=Resolver(a.node)).run()
+    n2 = prm[1]
+    construct = "_auto_menu_dep/a node with a prompt is judged by its prompt condition"
+    ok = False
+    for c in calls:
+        e = ast.parse(expand_locals(a.node, c.args[0]), mode="eval").body
+        gs = fl.guards_at(c) or set()
+        if isinstance(e, ast.IfExp) and ast.unparse(e.test) == f"{n2}.prompt" and ast.unparse(e.body) == f"{n2}.prompt[1]" and ast.unparse(e.orelse) == f"{n2}.dep":
+            ok = True
+        if ast.unparse(e) == f"{n2}.prompt[1]" and (f"{n2}.prompt", True) in gs:
+            ok = True
+    (ctx.ok(construct, a.loc(calls[0])) if ok else
+     ctx.bad(construct, f"the dependency that is tested is `{expand_locals(a.node, calls[0].args[0])[:70]}`: a condition that is written on the prompt only is not seen", a.loc(calls[0])))
+    f = repo.func(f"{CORE}:Kconfig._finalize_node")
+    ctx.analysed(f.qual)
+    vparam = [x.arg for x in f.node.args.args][2]
+    rec = [n for n in ast.walk(f.node) if isinstance(n, ast.Call) and ast.unparse(n.func) == "self._finalize_node" and len(n.args) >= 2]
+    if len(rec) < 2:
+        raise AnalysisError(f"only {len(rec)} recursive calls in _finalize_node")
+    for i, c in enumerate(rec):
+        construct = f"Kconfig._finalize_node/recursive call #{i + 1} hands on the enclosing `visible if`"
+        (ctx.ok(construct, f.loc(c)) if ast.unparse(c.args[1]) == vparam else
+         ctx.bad(construct, f"`{ast.unparse(c)[:60]}` passes `{ast.unparse(c.args[1])}` instead of `{vparam}`: the enclosing menus' `visible if` is lost for "
+                 "everything below that node", f.loc(c)))
+
+
 def rules():
-    return [("R09.13", r09_13, 4), ("R09.12", r09_12, 1), ("R09.11", r09_11, 1), ("R09.10", r09_10, 80), ("R09.9", r09_9, 1), ("R09.8", r09_8, 1), ("R09.7", r09_7, 2), ("R09.6", r09_6, 6), ("R09.1", r09_1, 14), ("R09.1b", r09_1b, 3), ("R09.2", r09_2, 6), ("R09.3", r09_3, 8), ("R09.4", r09_4, 5), ("R09.5", r09_5, 10)]
+    return [("R09.14", r09_14, 3), ("R09.13", r09_13, 4), ("R09.12", r09_12, 1), ("R09.11", r09_11, 1), ("R09.10", r09_10, 80), ("R09.9", r09_9, 1), ("R09.8", r09_8, 1), ("R09.7", r09_7, 2), ("R09.6", r09_6, 6), ("R09.1", r09_1, 14), ("R09.1b", r09_1b, 3), ("R09.2", r09_2, 6), ("R09.3", r09_3, 8), ("R09.4", r09_4, 5), ("R09.5", r09_5, 10)]
